@@ -220,6 +220,68 @@ func (r *symref) load() value {
 	if !ok {
 		panic("symref.load: non-scalar elements")
 	}
+	w := kindWidth(k)
+	// Constant table: group indices by value into runs, default = most common value.
+	allConc := true
+	for _, e := range r.elems {
+		if _, ok := e.(symv); ok {
+			allConc = false
+			break
+		}
+	}
+	if allConc && len(r.elems) > 4 {
+		vals := make([]uint64, len(r.elems))
+		count := map[uint64]int{}
+		for j, e := range r.elems {
+			_, bits, _ := concKind(e)
+			vals[j] = bits
+			count[bits]++
+		}
+		var def uint64
+		best := -1
+		for v, c := range count {
+			if c > best || (c == best && v < def) {
+				best, def = c, v
+			}
+		}
+		t := mkConst(w, def)
+		if w == 0 {
+			t = mkBool(def == 1)
+		}
+		// runs, from the end so the chain is in index order
+		type run struct {
+			lo, hi int
+			v      uint64
+		}
+		var runs []run
+		for j := 0; j < len(vals); {
+			if vals[j] == def {
+				j++
+				continue
+			}
+			h := j
+			for h+1 < len(vals) && vals[h+1] == vals[j] {
+				h++
+			}
+			runs = append(runs, run{j, h, vals[j]})
+			j = h + 1
+		}
+		for q := len(runs) - 1; q >= 0; q-- {
+			ru := runs[q]
+			var cond *Term
+			if ru.lo == ru.hi {
+				cond = mkCmp(opEq, r.idx, mkConst(64, uint64(ru.lo)))
+			} else {
+				cond = mkAnd(mkCmp(opUle, mkConst(64, uint64(ru.lo)), r.idx), mkCmp(opUle, r.idx, mkConst(64, uint64(ru.hi))))
+			}
+			vt := mkConst(w, ru.v)
+			if w == 0 {
+				vt = mkBool(ru.v == 1)
+			}
+			t = mkIte(cond, vt, t)
+		}
+		return mkSym(k, t)
+	}
 	last := len(r.elems) - 1
 	t, _ := termOf(r.elems[last])
 	for j := last - 1; j >= 0; j-- {
@@ -730,7 +792,10 @@ func callSSA(i *interpreter, caller *frame, callpos token.Pos, fn *ssa.Function,
 		i.extCache[fn] = ext
 	}
 	if ext != nil {
-		return ext(fr, args)
+		r := ext(fr, args)
+		if _, ft := r.(fallthroughSSA); !ft {
+			return r
+		}
 	}
 	if fn.Blocks == nil {
 		panic("no code for function: " + fn.String())
